@@ -950,7 +950,7 @@ func AdoptSession(p Persistence, c *Config) (client *Client, warn []error, fatal
 		} else {
 			txs.Completed = releaseKeys[0] & publishIDMask
 			txs.Received = releaseKeys[len(releaseKeys)-1]&publishIDMask + 1
-			if txs.Received < txs.Completed {
+			if txs.Received <= txs.Completed {
 				// range overflows address space
 				txs.Received += publishIDMask + 1
 			}
